@@ -425,6 +425,39 @@ fn exec_inner(line: &str) -> String {
                 "u".into()
             }
         }
+        ["stdhist", start, ops @ ..] => {
+            // a real std::path::PathBuf: validates Spec/StdBuf.lean, not the crate
+            use std::ffi::OsStr;
+            use std::os::unix::ffi::OsStrExt;
+            let b = h!(start);
+            let mut buf = std::path::PathBuf::from(OsStr::from_bytes(&b));
+            let mut out = Vec::new();
+            for op in ops {
+                let parts: Vec<&str> = op.split(':').collect();
+                match parts.as_slice() {
+                    ["pop"] => {
+                        let r = buf.pop();
+                        out.push(format!("{}:{}", hex(buf.as_os_str().as_bytes()), b01(r)));
+                    }
+                    ["clear"] => {
+                        buf.clear();
+                        out.push(hex(buf.as_os_str().as_bytes()));
+                    }
+                    ["push", a] => {
+                        let a = h!(a);
+                        buf.push(OsStr::from_bytes(&a));
+                        out.push(hex(buf.as_os_str().as_bytes()));
+                    }
+                    ["setfn", a] => {
+                        let a = h!(a);
+                        buf.set_file_name(OsStr::from_bytes(&a));
+                        out.push(hex(buf.as_os_str().as_bytes()));
+                    }
+                    _ => return BAD.into(),
+                }
+            }
+            out.join(" ")
+        }
         ["hist", e, start, ops @ ..] => {
             let b = h!(start);
             let r = match *e {
